@@ -501,3 +501,8 @@ def _drop_both(f, key):
 
 def all_loop_infos(fn, subst):
     return [loop_info(fn, lp, subst) for lp in loops_in(fn) if lp.get("k") in ("for", "foreach")]
+
+
+def nf(fn, subst, f):
+    """Spelling-neutral form of a path condition: done()-markers and the conditions of counted index loops set to true."""
+    return drop_loop_conds(drop_done(f), all_loop_infos(fn, subst))
